@@ -219,6 +219,33 @@ def run(ctx, res):
         eg.music.set_channel(1, 2, 33)
         eg.write_cart_data(bytes([0x5a]) * 64, 0x2ff0)
     res.count('history-before-first-build')
+    # the empty default itself: what `--empty-X` and a new OUT receive is the content of a new PICO-8 cart (Lean `Spec.Empty`, written from
+    # the format: zero sheet/map/flags, silent music patterns 41 42 43 44, sound effects with speed 16 — speed 1 for sound effect 0 —, no code)
+    if ctx.model.available:
+        spec_e = ctx.model.run(['emptycart'])[0].split(' ')
+        if spec_e[0] != 'ok' or len(spec_e) != 6:
+            res.diff({'op': 'emptycart'}, 'ok <5 regions>', ' '.join(spec_e)[:80])
+        else:
+            spec_empty = dict(zip(('gfx', 'map', 'gff', 'music', 'sfx'), (bytes.fromhex(x) for x in spec_e[1:])))
+            for how in ('flag', 'new-out'):
+                outp = os.path.join(ctx.tmp, 'emptydef_%s.p8' % how)
+                argv = (sum([['--empty-' + s_] for s_ in ('gfx', 'map', 'gff', 'music', 'sfx', 'lua')], []) if how == 'flag' else ['--empty-lua']) + [outp]
+                if how == 'flag':
+                    shutil.copy(first, outp)
+                rc = run_build(argv)
+                res.evaluations += 1
+                res.count('empty-default-vs-spec')
+                got = cart_contents(outp) if rc == 0 and os.path.exists(outp) else None
+                for s_ in ('gfx', 'map', 'gff', 'music', 'sfx'):
+                    if got is None or got[s_] != spec_empty[s_]:
+                        at = next((i_ for i_ in range(len(spec_empty[s_])) if got is None or i_ >= len(got[s_]) or got[s_][i_] != spec_empty[s_][i_]), None)
+                        res.fail('C13:empty-default:%s:%s' % (how, s_), 'p8tool build %s: section %s is not the content of a new PICO-8 cart (first difference at byte %s%s)' % (
+                            ' '.join(a_ if not a_.startswith('/') else os.path.basename(a_) for a_ in argv), s_, at,
+                            '' if got is None or at is None or at >= len(got[s_]) else ': %d instead of %d' % (got[s_][at], spec_empty[s_][at])),
+                            {'argv': [os.path.basename(a_) if a_.startswith('/') else a_ for a_ in argv], 'out_existed': how == 'flag'})
+                        break
+                if got is not None and got['lua'].strip() != b'':
+                    res.fail('C13:empty-default:%s:lua' % how, '--empty-lua left code in OUT: %r' % got['lua'][:60], {'argv': [os.path.basename(a_) if a_.startswith('/') else a_ for a_ in argv]})
     opts = ['u', 'p8', 'png', 'e']
     if ctx.tier == 'thorough':
         assigns = [dict(zip(SECS, t)) for t in itertools.product(opts, repeat=6)]
